@@ -252,10 +252,17 @@ def _make_keys(rng, rot_type: str):
             nums.append(("rsa", 0x10001, n))
     else:
         bits, curve = core.pick(rng, [(256, ec.SECP256R1()), (384, ec.SECP384R1())])
-        for _ in range(cnt):
+        for i in range(cnt):
             d = rng.getrandbits(bits - 8) | 1
             pub = ec.derive_private_key(d, curve).public_key()
             pn = pub.public_numbers()
+            if i == 0 and rng.random() < 0.5:
+                # a key with a coordinate that starts with a zero byte (1 key in 128): the record hashes the fixed-size form
+                d = rng.randrange(2, 1 << 16)
+                while min(pn.x.bit_length(), pn.y.bit_length()) > bits - 8:
+                    d += 1
+                    pub = ec.derive_private_key(d, curve).public_key()
+                    pn = pub.public_numbers()
             objs.append(PublicKeyEcc(pub))
             nums.append(("ecc", bits, pn.x, pn.y))
     return objs, nums
